@@ -254,7 +254,13 @@ func syscallOrder(r *ev.Run, kind, scratch string, observeOnly bool) {
 				case q != nil && reZeros.MatchString(q[1]):
 					e = "Z"
 				}
-				if n := len(curPack); n == 0 || curPack[n-1] != e {
+				// the FIRST occurrence of an effect is when the pack content changes: repeating it
+				// (zero fill, then a punch of the same extent) changes no byte
+				seen := false
+				for _, x := range curPack {
+					seen = seen || x == e
+				}
+				if !seen {
 					curPack = append(curPack, e)
 				}
 			}
